@@ -152,11 +152,19 @@ func TestVerifC14(t *testing.T) {
 		return
 	}
 	if envPart() == "race" {
+		// a few merge shapes: the second merge of a bucket touches a frame the first left alone
+		for _, sh := range c14MergeShapes(false) {
+			for _, want := range []string{"shape-f0-n3-m9", "shape-f0-n3-m13", "shape-f0-n3-m6", "shape-f2-n3-m9", "shape-f1-n3-m9"} {
+				if sh.name == want {
+					inputs = append(inputs, sh)
+				}
+			}
+		}
 		c14RacePass(t, r, inputs, ops)
 		return
 	}
 	depth := r.Pick(3, 4)
-	r.Set("rule", fmt.Sprintf("history search: operations {Aggregate x4 levels, Aggregated.ToHTML, Snapshot.ToHTML, IsRace, ScanSnapshot with the same *Opts through a plain reader / a reader reporting EOF with the last data / a reader failing mid-way} each addressed to one of two live snapshots; all sequences of length <= %d on %d pairs of snapshots (merging buckets with shared argument slices, race snapshots); after every operation the canonical state (both snapshots deep, the shared *Opts, the package-level variables of package stack) must equal the initial state and the operation's result must equal its result on a freshly parsed snapshot. states = distinct canonical states seen; transitions = operations applied. race pass: every ordered pair and triple of the same operations on a shared snapshot and shared *Opts on real goroutines released from a barrier, free running, under -race", depth, len(inputs)))
+	r.Set("rule", fmt.Sprintf("history search: operations {Aggregate x4 levels, Aggregated.ToHTML, Snapshot.ToHTML, IsRace, ScanSnapshot with the same *Opts through a plain reader / a reader reporting EOF with the last data / a reader failing mid-way} each addressed to one of two live snapshots; all sequences of length <= %d on %d pairs of snapshots (merging buckets with shared argument slices, race snapshots); after every operation the canonical state (both snapshots deep, the shared *Opts, the package-level variables of package stack) must equal the initial state and the operation's result must equal its result on a freshly parsed snapshot; the same for all sequences of <= 2 aggregation/rendering operations on every 'merge shape' (3, thorough 4, goroutines of one bucket whose two frames each carry one of two arguments, in every combination, x pointers / values / nested aggregates). states = distinct canonical states seen; transitions = operations applied. race pass: every ordered pair and triple of the same operations on a shared snapshot and shared *Opts on real goroutines released from a barrier, free running, under -race", depth, len(inputs)))
 	r.Set("assumptions", []string{"the library has no synchronisation primitive, so a cooperative scheduler has no point inside a call to switch at: call-level interleavings are the operation sequences enumerated here", "the happens-before verdict of the race detector for synchronisation-free deterministic bodies does not depend on timing; residual limits: 4 shadow cells per word, executed paths only", "console renderers (package internal) are pure functions of the aggregation and are covered by C16"})
 	states := map[string]struct{}{}
 	// fresh results
@@ -271,10 +279,114 @@ func TestVerifC14(t *testing.T) {
 		}
 		rec(nil)
 	}
+	// merge shapes: every way in which 3 (4) goroutines of one bucket can differ per
+	// frame, so that every order of "first merge here, later merge there" occurs
+	shapes := c14MergeShapes(r.Thorough())
+	r.Set("merge_shape_snapshots", len(shapes))
+	nAgg := 6 // Aggregate x4, Aggregated.ToHTML, Snapshot.ToHTML
+	for si := range shapes {
+		in := &shapes[si]
+		var freshRes []string
+		for o := 0; o < nAgg; o++ {
+			freshRes = append(freshRes, ops[o].run(scanOnce(bytes.NewReader(in.text), in.opts()).snap, in, in.opts()))
+		}
+		for o1 := 0; o1 < nAgg; o1++ {
+			for o2 := -1; o2 < nAgg; o2++ {
+				seq++
+				if !r.MineIdx(seq) || r.Expired() {
+					continue
+				}
+				hist := []int{o1}
+				if o2 >= 0 {
+					hist = append(hist, o2)
+				}
+				key := fmt.Sprintf("shape(%s) ops%v", in.name, hist)
+				v := r.Check(func() *h.Viol {
+					opts := in.opts()
+					A := scanOnce(bytes.NewReader(in.text), opts).snap
+					if A == nil {
+						return &h.Viol{Fingerprint: "C14/shape-not-parsed", Summary: in.name + " does not parse", Key: key}
+					}
+					init := canonSnapshot(A)
+					var names []string
+					for _, o := range hist {
+						names = append(names, ops[o].name)
+						var got, pn string
+						func() {
+							defer func() {
+								if e := recover(); e != nil {
+									pn = fmt.Sprint(e)
+								}
+							}()
+							got = ops[o].run(A, in, opts)
+						}()
+						r.Add("transitions", 1)
+						mk := func(fp, msg string) *h.Viol {
+							v := &h.Viol{Fingerprint: "C14/" + fp, Summary: fmt.Sprintf("merge shape %s, after %s: %s", in.name, strings.Join(names, " ; "), msg), Key: key, Kind: "history", InputText: string(in.text)}
+							return v
+						}
+						if pn != "" {
+							return mk("panic:"+ops[o].name, "panic: "+pn)
+						}
+						if st := canonSnapshot(A); st != init {
+							v := mk("state-changed:snapshot A:by:"+ops[o].name, ops[o].name+" changed the snapshot")
+							v.Expected, v.Observed = trunc(init), trunc(st)
+							return v
+						}
+						if got != freshRes[o] {
+							v := mk("result-differs-from-fresh:"+ops[o].name, "result of "+ops[o].name+" differs from its result on a freshly parsed snapshot")
+							v.Expected, v.Observed = trunc(freshRes[o]), trunc(got)
+							return v
+						}
+					}
+					return nil
+				})
+				out := "ok"
+				if v != nil {
+					out = v.Fingerprint
+				}
+				r.Record(key, true, out)
+			}
+		}
+	}
 	if r.Shard == 0 {
 		r.Add("states", len(states))
 	}
 	r.Set("states_per_pair_expected", 1)
+}
+
+// c14MergeShapes: n goroutines in the same state with the same two frames; the
+// argument of each frame of each goroutine (but the first) is one of two values, in
+// three flavours (pointers, plain values, a pointer inside an aggregate).
+func c14MergeShapes(thorough bool) []c14Input {
+	var out []c14Input
+	flavours := [][2][2]string{
+		{{"0xc000020000", "0xc000020010"}, {"0xc000010000", "0xc000010030"}},
+		{{"0x1", "0x2"}, {"0x3", "0x4"}},
+		{{"{0x1, 0xc000020000}", "{0x1, 0xc000020010}"}, {"0x7, {0xc000010000, 0x2}", "0x7, {0xc000010030, 0x2}"}},
+	}
+	sizes := []int{3}
+	if thorough {
+		sizes = []int{3, 4}
+	}
+	for fi, fl := range flavours {
+		for _, n := range sizes {
+			bits := 2 * (n - 1)
+			for m := 0; m < 1<<bits; m++ {
+				var b strings.Builder
+				for g := 0; g < n; g++ {
+					a0, a1 := 0, 0
+					if g > 0 {
+						a0 = m >> (2 * (g - 1)) & 1
+						a1 = m >> (2*(g-1) + 1) & 1
+					}
+					fmt.Fprintf(&b, "goroutine %d [chan receive]:\nmain.g(%s)\n\t/gp/src/foo/main.go:20 +0x1\nmain.f(%s)\n\t/gp/src/foo/main.go:10 +0x1\n\n", g+1, fl[0][a0], fl[1][a1])
+				}
+				out = append(out, c14Input{name: fmt.Sprintf("shape-f%d-n%d-m%d", fi, n, m), text: []byte(b.String())})
+			}
+		}
+	}
+	return out
 }
 
 // c14RacePass: free-running goroutines under -race.
